@@ -658,6 +658,14 @@ int main(int argc, char **argv) {
       else
         oputs("-");
       oputs("\n");
+    } else if (!strcmp(c, "mprot") || !strcmp(c, "madv")) {
+      /* the CALLER changes the protection / advice of some pages of the code buffer (a JIT that seals finished pages read+exec,
+       * excludes them from core dumps, ...): mprot <id> <first page> <pages> <prot>, madv <id> <first page> <pages> <advice> */
+      uint8_t *b = asm_get_code(x->al);
+      long pg = atol(tok[2]), np = atol(tok[3]);
+      int arg = atoi(tok[4]);
+      int r = !strcmp(c, "mprot") ? mprotect(b + pg * 4096, (size_t)np * 4096, arg) : madvise(b + pg * 4096, (size_t)np * 4096, arg);
+      oprintf("M %d %d\n", r, r ? errno : 0);
     } else if (!strcmp(c, "dumpoff")) {
       /* the code [0, offset) as seen through the public getters */
       long hi = asm_get_offset(x->al);
